@@ -199,6 +199,19 @@ def run(chk, ctx):
     eid = P.body("dig::extract_input_data")
     if chk.anchor("extract_input_data", eid):
         r = set(canon(P.sl(eid).ret(rb)) for rb in P.cfg(eid).return_blocks())
+        # the same decision written with branches instead of Option combinators (an `if let` ladder): the exact five-row table
+        DN = "some!(dig::attrib(node, 'InDefault'))"
+        AT, ZT = "variant(dig::attrib(node, 'InDefault'))", "Node::attribute(%s, 'z'), Option::Some{0: 'true'}" % DN
+        VV, PV = "variant(Node::attribute(%s, 'v'))" % DN, "str::parse(some!(Node::attribute(%s, 'v')))" % DN
+        ladder = {(frozenset([(AT, ("None",))]), "InputValue::Value{0: 0}"),
+                  (frozenset([(AT, ("Some",)), ("Eq(%s)" % ZT, True)]), "InputValue::Z{}"),
+                  (frozenset([(AT, ("Some",)), ("Ne(%s)" % ZT, True), (VV, ("None",))]), "InputValue::Value{0: 0}"),
+                  (frozenset([(AT, ("Some",)), ("Ne(%s)" % ZT, True), (VV, ("Some",)), ("variant(%s)" % PV, ("Err",))]), "InputValue::Value{0: 0}"),
+                  (frozenset([(AT, ("Some",)), ("Ne(%s)" % ZT, True), (VV, ("Some",)), ("variant(%s)" % PV, ("Ok",))]), "InputValue::Value{0: ok!(%s)}" % PV)}
+        if P.body("dig::extract_input_data::{closure#0}") is None:
+            got = set((tab.path_facts(pi), canon(pi.ret())) for pi in tab.paths(P, eid, to_return_only=True))
+            if got == ladder:
+                r = {"Option::unwrap_or(Option::and_then(dig::attrib(node, 'InDefault'), closure({closure#0})), InputValue::Value{0: 0})"}
         chk.require(r == {"Option::unwrap_or(Option::and_then(dig::attrib(node, 'InDefault'), closure({closure#0})), InputValue::Value{0: 0})"}, "CONST", "CONST:input-default:key-and-fallback", "attrib(InDefault)... or Value(0)", "extract_input_data returns %s" % r)
         cl = P.body("dig::extract_input_data::{closure#0}")
         if cl is not None:
